@@ -106,8 +106,11 @@ def gen_struct(cname, srcs, unit, manifest):
         e = re.sub(r'(?<![\w.>])(m_\w+)\b', r'(o)->\1', e)
         am = re.match(r'(\w+)\[(\d+)\]$', name)
         if am:
+            elems = None
+            if e.strip().startswith('{'):
+                elems = extract.split_top(e.strip()[1:-1])
             for k in range(int(am.group(2))):
-                dl.append(('%s[%d]' % (am.group(1), k), e))
+                dl.append(('%s[%d]' % (am.group(1), k), (elems[k] if k < len(elems) else '0') if elems is not None else e))
             continue
         dl.append((name, e))
     up = cname.upper()
